@@ -118,6 +118,29 @@ Check C14_domain_decidable : forall rs : list (list (relation dversion)),
   relations_okb rs = true -> relations_ok dv_parse dv_print rs.
 Print Assumptions C14_domain_decidable.
 
+(* the modelled debversion reads back whatever it read (all strings) ... *)
+Theorem C14_debversion_stable : forall (s : str) (v : dversion),
+  dv_parse s = Some v -> version_text_ok (dv_print v) = true /\ dv_parse (dv_print v) = Some v.
+Proof. exact dv_parse_stable. Qed.
+Check C14_debversion_stable : forall (s : str) (v : dversion),
+  dv_parse s = Some v -> version_text_ok (dv_print v) = true /\ dv_parse (dv_print v) = Some v.
+Print Assumptions C14_debversion_stable.
+
+(* ... so with it the re-read theorems hold for ALL strings with no side condition: printing what a
+   reader returned and reading again returns the same value (print . read is idempotent) *)
+Theorem C14_reread_dv : forall s : str,
+  (forall r, relation_from_str dv_parse s = Ok r ->
+             relation_from_str dv_parse (print_relation dv_print r) = Ok r) /\
+  (forall rs, relations_from_str dv_parse s = Ok rs ->
+              relations_from_str dv_parse (print_relations dv_print rs) = Ok rs).
+Proof. intros s. split; [apply relation_reread_dv|apply relations_reread_dv]. Qed.
+Check C14_reread_dv : forall s : str,
+  (forall r, relation_from_str dv_parse s = Ok r ->
+             relation_from_str dv_parse (print_relation dv_print r) = Ok r) /\
+  (forall rs, relations_from_str dv_parse s = Ok rs ->
+              relations_from_str dv_parse (print_relations dv_print rs) = Ok rs).
+Print Assumptions C14_reread_dv.
+
 (* ---------------------------------------------------------------- the side conditions are needed *)
 Theorem C14_empty_entry_needed :
   relations_from_str dv_parse (print_relations dv_print [[] : list (relation dversion)]) = Ok [].
